@@ -47,6 +47,127 @@ def norm_fits(c, taken):
     return ("fits" if le else "nofit", a, b)
 
 
+def guard_semantics(p, P0, A, k_adv, SZ, fn, m):
+    """Decide whether the branch conditions of path p imply 'the item fits' (size <= endp - old cursor), imply the
+    opposite, or neither.  Pointers are modelled as 64-bit signed offsets from the old cursor (objects do not wrap the
+    address space); everything after ptrtoint / pointer difference is bit-precise.  Quantified over every room
+    r = endp - old cursor with |r| < 2^40 (the cursor may already be far beyond the end) and every size (32 bits).
+    -> ('fits' | 'nofit' | 'mixed' | None, text, loc)"""
+    from ..domains.bdd import BDD, BV
+    from ..domains.bvexec import expr_bv, Top
+    B = BDD()
+    bv = BV(B)
+    R = [B.var(2 * i) if i < 32 else B.var(64 + i) for i in range(64)]
+    SZV = [B.var(2 * i + 1) for i in range(32)]
+    if SZ[0] == "const":
+        szv = bv.const(SZ[1], 32)
+        sz_atom = None
+    else:
+        szv = SZV
+        sz_atom = strip_casts(SZ[1][0][0])
+    sz64 = bv.zext(szv, 64)
+    adv_seq = None
+
+    def is_fld_ld(x, name):
+        return x[0] == "ld" and fld(x[1], fn, m) == name
+
+    def off_of(x):
+        """64-bit offset vector of a pointer expression relative to the old cursor, or None"""
+        x0 = x
+        x = strip_casts(x) if x[0] == "cast" and x[1] in ("bitcast", "ptrtoint", "inttoptr") else x
+        if x == P0:
+            return bv.const(0, 64)
+        if x == A.val:
+            return sz64
+        if is_fld_ld(x, "endp"):
+            return R
+        if is_fld_ld(x, "p"):
+            # a later load of the cursor: the engine forwards the stored value, so an unforwarded load is the old cursor
+            return bv.const(0, 64) if x[1] == P0[1] else None
+        if x[0] == "p":
+            base = off_of(x[1])
+            if base is None:
+                return None
+            v = bv.add(base, bv.const(x[2] & ((1 << 64) - 1), 64))
+            for ve, sc in x[3]:
+                t = conv(ve)
+                if t is None:
+                    return None
+                t = bv.sext(t, 64) if len(t) < 64 else t
+                v = bv.add(v, bv.mul(t, bv.const(sc, 64)))
+            return v
+        return None
+
+    def atom(x):
+        if x[0] == "cast" and x[1] == "ptrtoint":
+            return off_of(x[4])
+        if x[0] in ("ld", "p"):
+            o = off_of(x)
+            if o is not None:
+                return o
+        if sz_atom is not None and x == sz_atom:
+            return szv
+        if x[0] == "icmp":
+            a, b = off_of(x[2]), off_of(x[3])
+            if a is not None and b is not None:
+                pr = {"ule": "sle", "ult": "slt", "ugt": "sgt", "uge": "sge"}.get(x[1], x[1])
+                BB = bv.b
+                return [{"eq": lambda: bv.eq(a, b), "ne": lambda: BB.NOT(bv.eq(a, b)), "slt": lambda: bv.slt(a, b),
+                         "sgt": lambda: bv.slt(b, a), "sle": lambda: BB.NOT(bv.slt(b, a)), "sge": lambda: BB.NOT(bv.slt(a, b))}[pr]()]
+        if x[0] == "call" and x[1] in ("rf_pack_remaining", "rf_pack_consumed") and len(x) > 3:
+            return None
+        return None
+
+    def conv(x):
+        try:
+            return expr_bv(x, bv, atom)
+        except (Top, KeyError, IndexError, TypeError):
+            return None
+
+    # |r| < 2^40
+    lim = bv.const(1 << 40, 64)
+    dom = B.AND(bv.slt(R, lim), bv.slt(bv.sub(bv.const(0, 64), lim), R))
+    fits = B.NOT(bv.slt(R, sz64))
+    pc = dom
+    used = []
+    for c, taken, inst in p.conds:
+        if not paths.contains(c, lambda x: x[0] == "ld" and fld(x[1], fn, m) in ("endp", "p")):
+            continue
+        if inst is not None and getattr(inst, "op", None) == "switch":
+            return None, "switch on a cursor-dependent value is not modelled", inst.loc
+        v = conv(c)
+        if v is None:
+            return None, "guard %s is outside the modelled fragment" % fmt(c)[:100], inst.loc if inst else None
+        bit = v[0]
+        for extra in v[1:]:
+            pass
+        if len(v) > 1:
+            nz = 0
+            for x in v:
+                nz = B.OR(nz, x)
+            bit = nz
+        pc = B.AND(pc, bit if taken else B.NOT(bit))
+        used.append((c, taken, inst))
+    gloc = used[-1][2].loc if used and used[-1][2] is not None else None
+    if pc == 0:
+        return None, "path conditions on the cursor are contradictory (infeasible path)", gloc
+    yes, no = B.AND(pc, fits), B.AND(pc, B.NOT(fits))
+
+    def show(f):
+        asg = B.sat_one(f) or {}
+        r = sum((1 << i) for i in range(64) if asg.get(2 * i if i < 32 else 64 + i))
+        if r >> 63:
+            r -= 1 << 64
+        z = sum((1 << i) for i in range(32) if asg.get(2 * i + 1)) if SZ[0] != "const" else SZ[1]
+        return "room endp-cursor = %d, size = %d" % (r, z)
+    if yes != 0 and no != 0:
+        return "mixed", ("the branch taken here does not decide whether the item fits: the path runs when it fits (%s) and "
+                         "when it does not (%s)%s" % (show(yes), show(no), "" if used else "; no condition on this path involves the cursor and endp")), gloc
+    if no == 0:
+        return "fits", "path conditions imply size <= endp - old cursor for every room and size (BDD, %d nodes)" % B.size(), gloc
+    return "nofit", "path conditions imply size > endp - old cursor for every room and size (BDD, %d nodes)" % B.size(), gloc
+
+
 def check_transfer(chk, m, fn):
     name = fn.name
     mt = NAME_RE.match(name)
@@ -65,6 +186,8 @@ def check_transfer(chk, m, fn):
                    "item the first part is transferred and only the rest refused" %
                    (len(deleg), ", ".join(e.callee for e in deleg)) if not ok else
                    "delegates the whole item to %s" % deleg[0].callee, deleg[0].inst.loc, name)
+            if ok:
+                n_fit += 1
             if ok and mt and NAME_RE.match(deleg[0].callee):
                 a, b = mt.group(2), NAME_RE.match(deleg[0].callee).group(2)
                 same = a[1:] == b[1:] and mt.group(1) == NAME_RE.match(deleg[0].callee).group(1)
@@ -103,36 +226,28 @@ def check_transfer(chk, m, fn):
         chk.ob("P1.advance-before-access", pathid, not early,
                "the advance precedes every payload access" + ("" if not early else " (access at %s precedes it)" % early[0].inst.loc),
                A.inst.loc, name)
-        # the guard
-        guard = None
-        for c, taken, inst in p.conds:
-            g = norm_fits(c, taken)
-            if g is None:
+        # the guard, decided semantically: under this path's branch conditions the item either always fits
+        # (size <= endp - old cursor) or never does
+        verdict, why, gloc = guard_semantics(p, P0, A, k_adv, SZ, fn, m)
+        if verdict is None:
+            chk.unknown("P2.guard", pathid, why, gloc or A.inst.loc)
+            continue
+        if verdict == "mixed":
+            user_null = any(strip_casts(c)[0] == "icmp" and ("arg", 1) in (strip_casts(c)[2], strip_casts(c)[3]) and
+                            ("null",) in (strip_casts(c)[2], strip_casts(c)[3]) and ((strip_casts(c)[1] == "eq") == bool(t))
+                            for c, t, i in p.conds)
+            wr_user0 = [e for e in p.events if e.kind in ("memset", "memcpy", "store") and e.ptr is not None
+                        and ptr_parts(e.ptr)[0] == ("arg", 1)]
+            if not acc and not src_acc and not wr_user0 and fn.ret_ty == "void" and user_null and mt and mt.group(1) == "unpack":
+                chk.ob("P2.guard", pathid, True, "NULL destination: the bytes are skipped (cursor advanced, nothing transferred) whether "
+                       "or not they fit", A.inst.loc, name)
                 continue
-            if g[2][0] == "ld" and fld(g[2][1], fn, m) == "endp":
-                guard = (g, inst)
-                break
-        if guard is None:
-            strict = None
-            for c, taken, inst in p.conds:
-                cc = strip_casts(c)
-                if cc[0] == "icmp" and (paths.contains(cc, lambda x: x[0] == "ld" and fld(x[1], fn, m) == "endp")):
-                    strict = (cc, inst)
-            if strict is not None:
-                chk.ob("P2.guard", pathid, False, "guard %s is not `new cursor <= endp`" % fmt(strict[0])[:100], strict[1].loc, name)
-            elif acc or src_acc:
-                chk.ob("P2.guard", pathid, False,
-                       "payload is accessed without any test of the new cursor against endp", (acc or src_acc)[0][1].inst.loc, name)
-            else:
-                chk.ob("P2.guard", pathid, False, "no test of the new cursor against endp on this path", A.inst.loc, name)
+            chk.ob("P2.guard", pathid, False, why, gloc or A.inst.loc, name)
             continue
-        (kind, lhs, rhs), ginst = guard
-        lhs_ok = lhs == A.val
-        chk.ob("P2.guard", pathid, lhs_ok,
-               "guard compares the advanced cursor (%s) with endp, relation %s" % (fmt(lhs)[:60], "<=" if kind == "fits" else ">"),
-               ginst.loc, name)
-        if not lhs_ok:
-            continue
+        chk.ob("P2.guard", pathid, True, why, gloc or A.inst.loc, name)
+        kind = verdict
+        ginst = [i for c, t, i in p.conds if i is not None and i.loc == gloc][0] if gloc and any(
+            i is not None and i.loc == gloc for c, t, i in p.conds) else A.inst
         fits = kind == "fits"
         if fits:
             n_fit += 1
